@@ -456,3 +456,15 @@ Example C20_nonvacuous_table :
   table_disciplined [mkRow "read" [0; 1]%N []; mkRow "memo" [0; 1]%N [(1%N, PCheckThenAct); (2%N, PAugmented)]] = true /\
   table_disciplined [mkRow "read" [0; 2]%N []; mkRow "memo" [0; 1]%N [(1%N, PCheckThenAct); (2%N, PAugmented)]] = false.
 Proof. vm_compute. split; reflexivity. Qed.
+
+(* a keyed memo whose value is not a function of its key (seeded C13-7: bounds cached under a key that does not name the file;
+   C15-8: id() in the key; C05-7: repr() in the key) is not an idempotent publication although every single store is a
+   publication of an absent key: the second thread uses the first one's value.  The static clause
+   inv_memo_keys_determine_values (genproofs/GenSharedInvAdvisory.v) is the regenerated premise that excludes it. *)
+Theorem C20_key_not_determining_refuted :
+  let user (x : N) : prog N N := cta_noreadback 7%N [] (fun _ => (100 + x)%N) (fun v => Ret v) in
+  result (exec [1; 1; 0] (init (two (user 1%N) (user 2%N)) empty)) 0 = Some 102%N /\
+  fst (solo (user 1%N) empty) = 101%N /\
+  kinds N.eqb [1; 1; 0] (init (two (user 1%N) (user 2%N)) empty) = [KRead; KMemoWrite; KRead].
+Proof. exact key_not_determining_refuted. Qed.
+Print Assumptions C20_key_not_determining_refuted.
